@@ -17,7 +17,15 @@ c26 nts <hash> <secret>                                                  → ok 
 c26 tk <suite13> <secret>                                          → ok key,iv | panic
 c26 fin13 <hash> <basekey> <msgs>                                        → ok hex | panic
 c26 ekm13 <hash> <master> <msgs> <label> <ctx> <len>                     → ok hex | panic
+c26 prfseq <version> <suite> <n>:<secret>:<label>:<seed>,…                → <none|sha256|sha384>;hex;hex… (ONE prf closure, several calls)
+c26 ekmseq <version> <suite> <ms> <cr> <sr> <label>:<ctx|nil>:<len>,…    → results of the queries on ONE closure joined by ;
+c26 ekm13seq <suite13> <master> <msgs> <label>:<ctx|nil>:<len>,…         → same for the TLS 1.3 exporter closure
+c26 finseq <version> <suite> <ms> <msg>,<msg>…                           → sum,client,server before the first / after every Write (+ once more)
+c26 sched13 <suite13> <step>,…   (w:<hex> | ds:<secret>:<label> | fin:<basekey> | exp:<master> | ekm:<label>:<ctx|nil>:<len>)
+                                                                         → per step w | ok hex | exp | ok hex/err/panic joined by ;
 ```
+The model functions are pure: a closure / running hash queried n times is the function applied n times (to the transcript
+written so far). That is the statement "the derived objects keep no state between queries"; T2 checks it on the real objects.
 Suite ids are decimal; the model resolves them with its RFC tables (`rfcSHA384Suites`, `rfcSuites13`), which T1 ties to the tree's tables. -/
 namespace ZV.C26
 open ZV.Hash
@@ -52,8 +60,99 @@ def prfHashName : PrfHash → String
   | .sha256 => "sha256"
   | .sha384 => "sha384"
 
+/-- all prefixes, shortest first -/
+def prefixes {α} : List α → List (List α)
+  | [] => [[]]
+  | x :: xs => [] :: (prefixes xs).map (x :: ·)
+
+/-- one exporter query `<label>:<ctx|nil>:<len>` -/
+def parseCall (p : List String) : Option (Bytes × Option Bytes × Nat) :=
+  match p with
+  | [label, ctx, len] =>
+    match ofHex label, optHex ctx, len.toNat? with
+    | some label, some ctx, some len => some (label, ctx, len)
+    | _, _, _ => none
+  | _ => none
+
+def ctxBytes : Option Bytes → Bytes
+  | none => []
+  | some c => c
+
+/-- `sched13`: `msgs` = everything written to the shared transcript so far; `exp` = (master secret, transcript at creation)
+of the exporter closure created last. -/
+def sched13 (H : Hash13) : List String → Bytes → Option (Bytes × Bytes) → Option (List String)
+  | [], _, _ => some []
+  | st :: rest, msgs, exp =>
+    match st.splitOn ":" with
+    | ["w", b] =>
+      match ofHex b with
+      | some b => (sched13 H rest (msgs ++ b) exp).map ("w" :: ·)
+      | none => none
+    | ["ds", secret, label] =>
+      match ofHex secret, ofHex label with
+      | some secret, some label => (sched13 H rest msgs exp).map (showResB (deriveSecret H secret label (some msgs)) :: ·)
+      | _, _ => none
+    | ["fin", bk] =>
+      match ofHex bk with
+      | some bk => (sched13 H rest msgs exp).map (showResB (finishedHash13 H bk msgs) :: ·)
+      | none => none
+    | ["exp", master] =>
+      match ofHex master with
+      | some master => (sched13 H rest msgs (some (master, msgs))).map ("exp" :: ·)
+      | none => none
+    | "ekm" :: call =>
+      match exp, parseCall call with
+      | some (master, emsgs), some (label, ctx, len) =>
+        (sched13 H rest msgs exp).map (showResB (exportKeyingMaterial H master emsgs label (ctxBytes ctx) len) :: ·)
+      | _, _ => none
+    | _ => none
+
 def handle (args : List String) : String :=
   match args with
+  | ["prfseq", v, f, calls] =>
+    let parse (c : String) : Option (Nat × Bytes × Bytes × Bytes) :=
+      match c.splitOn ":" with
+      | [n, secret, label, seed] =>
+        match n.toNat?, ofHex secret, ofHex label, ofHex seed with
+        | some n, some secret, some label, some seed => some (n, secret, label, seed)
+        | _, _, _, _ => none
+      | _ => none
+    match v.toNat?, flag f, (calls.splitOn ",").mapM parse with
+    | some v, some f, some calls =>
+      match prfAndHashForVersion realPrims v f with
+      | .ok (prf, h) => ";".intercalate (prfHashName h :: calls.map (fun (n, secret, label, seed) => toHex (prf n secret label seed)))
+      | .err => "err"
+      | .panic => "panic"
+    | _, _, _ => "bad-op"
+  | ["ekmseq", v, f, ms, cr, sr, calls] =>
+    match v.toNat?, flag f, ofHex ms, ofHex cr, ofHex sr, (calls.splitOn ",").mapM (fun c => parseCall (c.splitOn ":")) with
+    | some v, some f, some ms, some cr, some sr, some calls =>
+      ";".intercalate (calls.map (fun (label, ctx, len) => showResB (ekmFromMasterSecret realPrims v f ms cr sr label ctx len)))
+    | _, _, _, _, _, _ => "bad-op"
+  | ["ekm13seq", h, master, msgs, calls] =>
+    match (suite13 h).map (·.1), ofHex master, ofHex msgs, (calls.splitOn ",").mapM (fun c => parseCall (c.splitOn ":")) with
+    | some a, some master, some msgs, some calls =>
+      ";".intercalate (calls.map (fun (label, ctx, len) =>
+        showResB (exportKeyingMaterial (hash13OfAlg a) master msgs label (ctxBytes ctx) len)))
+    | _, _, _, _ => "bad-op"
+  | ["finseq", v, f, ms, msgs] =>
+    match v.toNat?, flag f, ofHex ms, (if msgs == "-" then some [] else (msgs.splitOn ",").mapM ofHex) with
+    | some v, some f, some ms, some msgl =>
+      let triple (m : Bytes) : Option String :=
+        match finishedSum realPrims v f m, clientSum realPrims v f ms m, serverSum realPrims v f ms m with
+        | .ok s, .ok c, .ok sv => some (toHex s ++ "," ++ toHex c ++ "," ++ toHex sv)
+        | _, _, _ => none
+      match ((prefixes msgl).map List.flatten ++ [msgl.flatten]).mapM triple with
+      | some l => ";".intercalate l
+      | none => "panic"
+    | _, _, _, _ => "bad-op"
+  | ["sched13", h, steps] =>
+    match (suite13 h).map (·.1) with
+    | some a =>
+      match sched13 (hash13OfAlg a) (steps.splitOn ",") [] none with
+      | some l => ";".intercalate l
+      | none => "bad-op"
+    | none => "bad-op"
   | ["phash", h, n, secret, seed] =>
     match algOf h, n.toNat?, ofHex secret, ofHex seed with
     | some a, some n, some secret, some seed => toHex (pHash (hmac a) n secret seed)
